@@ -32,7 +32,7 @@ hvars == <<fault, shared, hist, k, stored, verdicts>>
 
 NoStore == [chain |-> "none", collateral |-> "none"]
 HInit == /\ fault \in FaultWorlds /\ shared \in BOOLEAN
-         /\ hist \in {<<a, b>> : a \in {s \in StepsH : GoodStep(s) /\ s.wid \in {"T", "B"}}, b \in {s \in StepsH : GoodStep(s)}}
+         /\ hist \in {<<a, b>> : a \in {s \in StepsH : GoodStep(s) /\ s.wid \in {"T", "B"}}, b \in StepsH}   \* the second call may also ask for revocation checking without collateral (refused, whatever the first call left behind)
          /\ k = 1 /\ stored = NoStore /\ verdicts = <<>>
          /\ w = Baseline /\ o = [gc |-> FALSE, cr |-> FALSE, now |-> "set", entry |-> "msg"] /\ pc = 1 /\ verdict = "none" /\ fetches = <<>> /\ dp = 1
 
